@@ -197,6 +197,14 @@ impl<'a> ProtobufReader<'a> {
     ) -> Result<Vec<<T as ReadableType>::Type>, <Self as Reader>::Error> {
         let mut vec = Vec::new();
 
+        // a list directly inside a list has no representation of its own (the writer flattens it):
+        // in the Root state the loop below would never end
+        if matches!(self.state, State::Root { .. }) {
+            return Err(Error::from(std::io::Error::from(
+                std::io::ErrorKind::UnexpectedEof,
+            )));
+        }
+
         while let Some(range) = self.next_tag_range::<false>() {
             let mut state = State::Root { range };
             core::mem::swap(&mut self.state, &mut state);
